@@ -33,7 +33,10 @@ use tendermint::block::Height;
 pub use tendermint_proto;
 pub use tendermint_rpc;
 #[cfg(feature = "http")]
+#[cfg(not(feature = "verif"))]
 pub use tendermint_rpc::HttpClient;
+#[cfg(all(feature = "http", feature = "verif"))]
+pub use verif::SimHttpClient as HttpClient;
 #[cfg(feature = "websocket")]
 pub use tendermint_rpc::WebSocketClient;
 use tokio_stream::wrappers::IntervalStream;
@@ -50,6 +53,11 @@ mod __feature_gated_exports {
         SequencerSubscriptionClientExt,
     };
 }
+
+/// Deterministic-simulation hook H6 (off by default): in-process stand-in for the HTTP client.
+#[cfg(feature = "verif")]
+#[path = "/verif/harness/seqclient/mod.rs"]
+pub mod verif;
 
 pub trait StreamLatestHeight {
     fn stream_latest_height(&self, poll_period: Duration) -> LatestHeightStream;
